@@ -289,6 +289,36 @@ def rowwise_check(ctx, rng, dis):
                                         {'A': A.tolist()}, False))
 
 
+def bandmul_check(ctx, rng, dis):
+    """`_banded_dot_banded` (the loops the banded beads implementation relies on) against the Lean model, exactly, on integer bands"""
+    from pybaselines.misc import _banded_dot_banded
+    lines, metas = [], []
+    for _ in range(12 if not ctx.thorough else 60):
+        al, au, bl, bu = (int(v) for v in rng.integers(0, 4, 4))
+        n = int(rng.integers(max(al + bl, au + bu) + 1, max(al + bl, au + bu) + 9))
+        a = np.round(rng.uniform(-9, 9, (al + au + 1, n)))
+        b = np.round(rng.uniform(-9, 9, (bl + bu + 1, n)))
+        real = _banded_dot_banded(a, b, (al, au), (bl, bu), (n, n), (n, n))
+        lines.append(f'c10.bandmul {al} {au} {bl} {bu} {n} {";".join(qs(r) for r in a)} {";".join(qs(r) for r in b)}')
+        metas.append((al, au, bl, bu, n, a, b, real))
+    res = drive(lines)
+    ctx.traces += len(lines)
+    for (al, au, bl, bu, n, a, b, real), r in zip(metas, res):
+        model = np.array([[float(v) for v in parse_qs(row)] for row in r.split(';')])
+        ctx.case(('bandmul', al, au, bl, bu, n), nontrivial=True)
+        ctx.count('bandmul')
+        # entries of the real array that correspond to matrix positions (the corners outside the matrix are never written by either)
+        if model.shape != real.shape or not np.array_equal(model, real):
+            dis.append(Disagreement('c10.bandmul', 'model:bandmul', f'_banded_dot_banded with (lower, upper) = ({al}, {au}) x ({bl}, {bu}), n = {n}: differs from the Lean '
+                                    f'model of the three accumulation loops', {'al': al, 'au': au, 'bl': bl, 'bu': bu, 'n': n, 'a': a.tolist(), 'b': b.tolist()}, False))
+            dense = lambda t, l, u: sum(np.diag(t[u - k, max(0, k):n + min(0, k)], k) for k in range(-l, u + 1))      # noqa: E731
+            A, B = dense(a, al, au), dense(b, bl, bu)
+            C = dense(real, min(al + bl, n - 1), min(au + bu, n - 1))
+            if not np.array_equal(C, A @ B):
+                dis.append(Disagreement('c10.bandmul', 'bandmul:product', f'_banded_dot_banded with (lower, upper) = ({al}, {au}) x ({bl}, {bu}), n = {n} is not the matrix '
+                                        f'product', {'al': al, 'au': au, 'bl': bl, 'bu': bu, 'n': n, 'a': a.tolist(), 'b': b.tolist()}, True))
+
+
 def correspond(ctx):
     rng = ctx.np_rng()
     dis = []
@@ -310,6 +340,7 @@ def correspond(ctx):
     worst = compare(ctx, jobs, res, errs, routes, dis)
     route_check(ctx, jobs, routes, dis)
     rowwise_check(ctx, rng, dis)
+    bandmul_check(ctx, rng, dis)
     ctx.traces += len(jobs) * 16
     ctx.notes.append(f'worst (difference between configurations) / (allowed) = {worst:.3g}')
     ctx.hist['worst_ratio_x1000'] = int(worst * 1000)
